@@ -116,6 +116,8 @@ pub fn check_history(kind: DynKind, ops: &[Op], backend: &Backend, acc: &mut Dyn
             let mut devs: Vec<(Vec<usize>, Deviation)> = vec![];
             let mut n = 0u64;
             let mut sample: Option<Value> = None;
+            let mut outs: Vec<String> = vec![];
+            let room = acc.outcomes.len() < 200;
             let r = explore(
                 cfg,
                 &mut |f| run_history(kind, ops, f),
@@ -123,6 +125,11 @@ pub fn check_history(kind: DynKind, ops: &[Op], backend: &Backend, acc: &mut Dyn
                     n += 1;
                     match e.result {
                         Ok(obs) => {
+                            if room && outs.len() < 8 {
+                                if let Some(o) = obs.last() {
+                                    outs.push(o.describe());
+                                }
+                            }
                             if let Some(d) = judge_history(kind, ops, obs) {
                                 devs.push((e.choices.clone(), d));
                             }
@@ -138,6 +145,7 @@ pub fn check_history(kind: DynKind, ops: &[Op], backend: &Backend, acc: &mut Dyn
                 },
             );
             acc.executions += n;
+            acc.outcomes.extend(outs);
             match r {
                 Ok(st) => acc.stats.add(&st),
                 Err(m) => acc.machinery.push(format!("{} [{}]: {}", kind.name(), history_str(ops), m.0)),
@@ -175,8 +183,9 @@ pub fn run_plan(plan: &DynPlan) -> DynAcc {
     // tasks: (kind, prefix, first two operations)
     let mut tasks: Vec<(DynKind, Vec<Op>)> = vec![];
     for &kind in &plan.kinds {
-        let alpha = alphabet(plan, kind);
         let split = plan.depth.min(2);
+        let mut alpha = alphabet(plan, kind);
+        alpha.tail = plan.depth - split;
         for p in &plan.prefixes {
             alpha.for_each_history(p, split, plan.bad_budget, &mut |h| tasks.push((kind, h.to_vec())));
         }
@@ -219,6 +228,7 @@ fn alphabet(plan: &DynPlan, kind: DynKind) -> Alphabet {
         max_queries: plan.max_queries,
         queries_only: plan.queries_only,
         updates_then_query: plan.updates_then_query,
+        tail: 0,
         nodes: std::cell::Cell::new(0),
     }
 }
@@ -297,6 +307,9 @@ pub fn run_c08(tier: Tier) -> i32 {
         let t = std::time::Instant::now();
         let acc = run_plan(p);
         eprintln!("  plan '{}': {} histories, {} executions, {:.1}s", p.name, acc.histories, acc.executions, t.elapsed().as_secs_f64());
+        if acc.histories == 0 {
+            rep.machinery_errors.push(format!("plan '{}' enumerated no history (vacuous)", p.name));
+        }
         fill(&mut rep, p, acc);
     }
     rep.rule = "cases = histories of valid update operations and supported queries (with certificate; both variants for the recompute wrapper) over 2 or 3 labels, each executed from scratch on the real solver object, every step compared with the reference store and the reference semantics of the framework at that moment; with the oracle backend every history is run under every model choice up to the deviation bound; distinct_nontrivial = histories containing at least one removal and at least one query".into();
@@ -318,6 +331,8 @@ pub fn run_c09(tier: Tier) -> i32 {
         DynPlan { name: "2 labels + one never-declared label, <=1 bad update, oracle choices".into(), kinds: kinds.clone(), n_labels: 2, depth: if thorough { 6 } else { 5 }, bad_budget: 1, max_queries: 2, prefixes: vec![vec![]], backend: choice(1), only_with_bad: true, queries_only: false, updates_then_query: false },
         DynPlan { name: "non-initial starts (<=2 arguments, compact and sparse), then <=1 bad update within 3 operations".into(), kinds: kinds.clone(), n_labels: 2, depth: 3, bad_budget: 1, max_queries: 2, prefixes: start_states(2), backend: Backend::Cadical, only_with_bad: true, queries_only: false, updates_then_query: false },
     ];
+    // stale-slot class: an update that removes something, then a redundant update, then more updates, one query
+    plans.push(DynPlan { name: "2 labels: from every start state (<=2 arguments, compact and sparse), 4 updates (exactly 1 bad) then one query, CaDiCaL".into(), kinds: vec![DynKind::Complete, DynKind::Stable, DynKind::Preferred, DynKind::CompleteAtt(1), DynKind::StableAtt(1), DynKind::DummyCoPr, DynKind::DummySt], n_labels: 2, depth: 5, bad_budget: 1, max_queries: 1, prefixes: start_states(2), backend: Backend::Cadical, only_with_bad: true, queries_only: false, updates_then_query: true });
     if thorough {
         // 3 labels from sparse 3-argument frameworks: three updates (exactly one redundant / invalid) and a final query
         let starts: Vec<Vec<Op>> = crate::universe::universe_upto(3).into_iter().filter(|g| g.n >= 2 && g.att.len() <= 2).map(|g| construction_history(&g, false)).collect();
@@ -328,6 +343,9 @@ pub fn run_c09(tier: Tier) -> i32 {
         let t = std::time::Instant::now();
         let acc = run_plan(p);
         eprintln!("  plan '{}': {} histories, {} executions, {:.1}s", p.name, acc.histories, acc.executions, t.elapsed().as_secs_f64());
+        if acc.histories == 0 {
+            rep.machinery_errors.push(format!("plan '{}' enumerated no history (vacuous)", p.name));
+        }
         fill(&mut rep, p, acc);
     }
     rep.rule = "cases = the C08 histories in which up to 2 updates are redundant (existing argument / attack) or invalid (unknown argument, absent attack, unknown end point), at every position; redundant updates must return normally and change nothing, invalid ones must return Err from the update call itself, and all later steps must behave as in the history without that operation; a history is cut at its first deviation; distinct_nontrivial = histories with a removal and a query".into();
